@@ -108,6 +108,69 @@ func runC11(e *Engine, r *Report, tier string) {
 			}
 		})
 	}
+	if !okAlias && len(addrPars) >= 2 {
+		// the guard may sit in the callers instead: then EVERY call site must be preceded by a test of the two values it
+		// passes as sender and recipient (in the calling function, or in the function enclosing the calling closure)
+		norm := func(k string) string {
+			return strings.ReplaceAll(strings.ReplaceAll(regNames.ReplaceAllString(k, ""), "F:", "P:"), "*", "")
+		}
+		sites := e.CallSites(fn)
+		all := len(sites) > 0
+		for _, cs := range sites {
+			if isAuxPkg(fnPkgPath(cs.Caller)) {
+				continue
+			}
+			args := cs.Call.Common().Args
+			i0, i1 := paramIndex(addrPars[0]), paramIndex(addrPars[1])
+			if i0 >= len(args) || i1 >= len(args) {
+				all = false
+				continue
+			}
+			k0, k1 := norm(vkey(args[i0], 0)), norm(vkey(args[i1], 0))
+			guarded := false
+			scan := func(F *ssa.Function, before ssa.Instruction) {
+				allInstrs(F, func(i ssa.Instruction) {
+					iff, ok := i.(*ssa.If)
+					if !ok || guarded {
+						return
+					}
+					ci, ok := NormCond(Guard{Cond: iff.Cond, Pol: true, If: iff})
+					if !ok || (ci.Op != "==" && ci.Op != "!=") || ci.X == nil || ci.Y == nil {
+						return
+					}
+					a, b := norm(vkey(ci.X, 0)), norm(vkey(ci.Y, 0))
+					if !((a == k0 && b == k1) || (a == k1 && b == k0)) {
+						return
+					}
+					if !exitsWithoutEffect(e, iff, ci.Op == "==") {
+						return
+					}
+					if before == nil || Dominates(iff, before) {
+						guarded = true
+					}
+				})
+			}
+			scan(cs.Caller, cs.Call)
+			if !guarded && cs.Caller.Parent() != nil {
+				// the closure is created in its parent: the test must dominate that creation
+				var mk ssa.Instruction
+				allInstrs(cs.Caller.Parent(), func(i ssa.Instruction) {
+					if m, ok := i.(*ssa.MakeClosure); ok && m.Fn == ssa.Value(cs.Caller) {
+						mk = m
+					}
+				})
+				if mk != nil {
+					scan(cs.Caller.Parent(), mk)
+				}
+			}
+			if !guarded {
+				all = false
+			}
+		}
+		if all {
+			okAlias = true
+		}
+	}
 	r.Check(okAlias, "R1", key, e.Pos(fn.Pos()), "from == to exits before the first keeper call", "a transfer to oneself is not refused before the two delegation copies are loaded: the recipient copy written last would be stale and the delegation grows by the transferred shares")
 
 	// R2: Shares stores
